@@ -214,11 +214,10 @@ func (s *SubscriptionManager[C, T]) Subscribe(clientID C, topic T) bool {
 		if has {
 			subscribedTopics.Set(topic, count+1)
 		} else {
-			// add a new topic
-			subscribedTopics.Set(topic, 1)
-
-			// check if the client has reached the max number of subscriptions
-			if s.maxTopicSubscriptionsPerClient != 0 && subscribedTopics.Size() >= s.maxTopicSubscriptionsPerClient {
+			// check if the client would reach the max number of subscriptions with the new topic.
+			// This has to happen before the topic is added to the client: the global map does not count it yet,
+			// so cleaning it up would decrement (and possibly remove) a topic that other clients still hold.
+			if s.maxTopicSubscriptionsPerClient != 0 && subscribedTopics.Size()+1 >= s.maxTopicSubscriptionsPerClient {
 				// cleanup the client
 				_, removedTopics, unsubscribedTopics = s.cleanupClientWithoutLocking(clientID)
 				clientDropped = true
@@ -227,6 +226,9 @@ func (s *SubscriptionManager[C, T]) Subscribe(clientID C, topic T) bool {
 				// do not modify the global map
 				return
 			}
+
+			// add a new topic
+			subscribedTopics.Set(topic, 1)
 		}
 
 		// global topics map
